@@ -37,9 +37,20 @@ pub fn probe(ctx: &Ctx) {
     let n: u64 = ctx.pick(1 << 20, 1 << 24);
     let mut worst = [(0u64, 0f32, 0f32); 3];
     for i in 0..n {
-        let x = if i % 2 == 0 { f32::from_bits(rng.below(0x7F00_0000) as u32 + 0x0080_0000) } else { rng.unit() as f32 };
-        let y = rng.pick(&LIB_EXPONENTS);
-        let a = ulps(powf(x, y), x.powf(y));
+        let x = match i % 4 {
+            0 => f32::from_bits(rng.below(0x7F00_0000) as u32 + 0x0080_0000),
+            1 => f32::from_bits(((1 + rng.below(253)) as u32) << 23), // an exact power of two
+            _ => rng.unit() as f32,
+        };
+        // the exponents the library uses, small integers, and anything in [-80, 80]
+        let y = match i % 3 {
+            0 => rng.pick(&LIB_EXPONENTS),
+            1 => (rng.below(17) as f32) - 8.0,
+            _ => rng.range(-80.0, 80.0) as f32,
+        };
+        let (pa, pb) = (powf(x, y), x.powf(y));
+        // compare where libm's result is a normal number (near over/underflow an ulp count says little)
+        let a = if pb.is_normal() { ulps(pa, pb) } else { 0 };
         if a > worst[0].0 {
             worst[0] = (a, x, y);
         }
